@@ -4,7 +4,8 @@ CONSTANTS Acct <- AcctU
  BaseSet <- BaseCand
  MaxSteps = 6
  MaxSnap = 2
+ WithSeal = TRUE
  FreeVals = FALSE
  Dv <- NoDev
-INVARIANTS UndoMatchesSaved NoPanic RevsOK DiscardAllIsBase
+INVARIANTS UndoMatchesSaved NoPanic RevsOK DiscardAllIsBase RedoEqualsExec
 CHECK_DEADLOCK FALSE
